@@ -53,6 +53,11 @@ type rec struct {
 
 func (s scen) config(rp **rec) *stack.Config {
 	cfg := &stack.Config{TimeoutSec: 3}
+	if s.ending == "extexit" {
+		// the runtime outlives the SIGTERM of the failure reset for a while: its own response for #1 arrives after
+		// the platform has answered #1 itself (a second submission, to be refused like any other)
+		cfg.RuntimeOnTerm = "ignore"
+	}
 	cfg.Runtime = func(rt *stack.Actor) {
 		r := *rp
 		for {
@@ -293,6 +298,13 @@ func (s scen) judge(e *sched.Exec) (string, string, *sched.Failure) {
 	}
 	if len(r.rogue) == 0 && s.kind != "platform-late-error" && s.kind != "broken-response-then-exit" {
 		failf("1", "rogue-not-run", "the rogue submission was never made")
+	}
+	// a submission that is not accepted is refused with a client error - by whoever makes it, the runtime's own late
+	// submission included: a handler that panics answers nothing at all
+	for _, c := range w.Calls {
+		if c.Aborted && (c.Kind == "response" || c.Kind == "error") {
+			failf("1", "submission-handler-panic:"+c.Kind, "the %s submission of %s (id %s) made the handler panic instead of being answered: %s", c.Kind, c.Actor, c.ReqID, c.Panic)
+		}
 	}
 	// (2) no effect: invocations 2 and 3 end exactly as without the rogue submission
 	for i := 2; i <= 3; i++ {
